@@ -4,6 +4,7 @@ go 1.25.0
 
 require (
 	github.com/elk-language/elk v0.0.0
+	github.com/fatih/color v1.15.0
 	github.com/rivo/uniseg v0.4.7
 )
 
@@ -21,7 +22,6 @@ require (
 	github.com/charmbracelet/x/cellbuf v0.0.13-0.20250311204145-2c3ea96c31dd // indirect
 	github.com/charmbracelet/x/term v0.2.1 // indirect
 	github.com/elk-language/go-prompt v1.3.1 // indirect
-	github.com/fatih/color v1.15.0 // indirect
 	github.com/google/go-cmp v0.6.0 // indirect
 	github.com/lucasb-eyer/go-colorful v1.2.0 // indirect
 	github.com/mattn/go-colorable v0.1.14 // indirect
